@@ -1387,3 +1387,67 @@ func TestHTBlockTails(t *testing.T) {
 	}
 	core.ExhaustiveDone("all 65536 values of the last two bytes of a single HT code-block (32x32, 64x64) x 5 settings of the bytes in front", int64(n))
 }
+
+// TestSegmentInsert: a well-formed marker segment the stream did not have, inserted at every
+// segment boundary of the header of every JPEG / JPEG-LS pool stream: restart intervals of 1, 2,
+// 3, width-1, width, width+1, one MCU row +-1 and 65535 (DRI), a line count (DNL), comments and
+// application segments, an empty table segment - each through every entry point of the stream.
+// (A decoder that starts honouring DRI divides by it, counts with it and loops on it.)
+func TestSegmentInsert(t *testing.T) {
+	shard, shards := core.EnvInt("VERIF_SHARD", 0), max(1, core.EnvInt("VERIF_SHARDS", 1))
+	n := 0
+	names := make([]string, 0, len(pool))
+	for _, it := range pool {
+		names = append(names, it.Name)
+	}
+	sort.Strings(names)
+	for _, name := range names {
+		it := byName[name]
+		if it.Family != "jpeg" && it.Family != "jpegls" {
+			continue
+		}
+		segs, _ := segmentsOf(it)
+		if len(segs) == 0 {
+			continue
+		}
+		w := it.Info.W
+		var ins [][]byte
+		for _, ri := range []int{1, 2, 3, w - 1, w, w + 1, (w + 7) / 8, (w+7)/8 + 1, (w + 15) / 16, 2 * w, w * it.Info.H, 255, 256, 65535} {
+			if ri >= 0 && ri <= 65535 {
+				ins = append(ins, []byte{0xFF, 0xDD, 0, 4, byte(ri >> 8), byte(ri)})
+			}
+		}
+		ins = append(ins, []byte{0xFF, 0xDC, 0, 4, 0, 1}, []byte{0xFF, 0xDC, 0, 4, 0xFF, 0xFF}, []byte{0xFF, 0xFE, 0, 2}, []byte{0xFF, 0xFE, 0, 5, 'a', 'b', 'c'},
+			[]byte{0xFF, 0xE0, 0, 2}, []byte{0xFF, 0xEE, 0, 14, 'A', 'd', 'o', 'b', 'e', 0, 100, 0, 0, 0, 0, 1}, []byte{0xFF, 0xC4, 0, 2}, []byte{0xFF, 0xDB, 0, 2},
+			[]byte{0xFF, 0xF8, 0, 13, 1, 0, 255, 0, 3, 0, 7, 0, 21, 0, 64}, []byte{0xFF, 0xF8, 0, 4, 2, 0})
+		at := []int{2}
+		for _, s := range segs {
+			at = append(at, s.off+s.size)
+		}
+		for _, p := range at {
+			if p > len(it.Data) {
+				continue
+			}
+			for _, b := range ins {
+				for _, e := range it.Entries {
+					n++
+					if n%shards != shard {
+						continue
+					}
+					in := append(append(append([]byte(nil), it.Data[:p]...), b...), it.Data[p:]...)
+					inf := it.Info
+					c := &Case{Entry: e, Parent: it.Name, Muts: []string{fmt.Sprintf("insertseg:%d:%x", p, b)}, Input: in, Info: &inf}
+					if len(e) < 6 || e[:6] != "codec:" {
+						c.Info = nil
+					}
+					o := Check(c)
+					if o.Fail != nil {
+						core.Eval(t, ID, "exhaustive", c, Check)
+					}
+					core.RecordLight(uint64(n)<<8|10, o.NonTrivial, "enum-insertseg")
+				}
+			}
+		}
+	}
+	core.ExhaustiveDone("a DRI / DNL / COM / APPn / empty table / LSE segment inserted at every header segment boundary of every JPEG and JPEG-LS pool stream, every entry point", int64(n))
+}
